@@ -304,6 +304,7 @@ def run(scn: Dict[str, Any]) -> List[Dict[str, Any]]:
         receiver = Receiver(b1, executor=InlineExecutor(), run_startup=False, validate_params=not cfg.get("noparse", False),
                             propagate_exceptions=not cfg.get("noprop", False))
         kickers: Dict[int, Any] = {}
+        delivered: Dict[int, Any] = {}
 
         def snap() -> None:
             env.rec("decl", lab=lab_view(task.labels))
@@ -356,13 +357,18 @@ def run(scn: Dict[str, Any]) -> List[Dict[str, Any]]:
                 env.rec("kiq", k=0, ok=not op[1])
                 env.kick_fail = bool(op[1])
                 loop.run_coro(do_kiq(task))
-            elif name in ("run", "run_last"):
+            elif name in ("run", "run_last", "rerun"):
                 if name == "run_last":
                     live = [q for q, m_ in env.sent.items() if m_ is not None]
                     j, mode = (max(live) if live else 0), op[1]
                 else:
                     j, mode = op[1], op[2]
-                msg = env.sent.get(j)
+                if name == "rerun":
+                    # at-least-once delivery: the broker hands the very same payload to the worker a second time
+                    msg = delivered.get(j)
+                else:
+                    msg = env.sent.get(j)
+                    delivered[j] = msg
                 if msg is None or getattr(msg, "_verif_ran", False):
                     env.rec("noop")
                     snap()
